@@ -28,6 +28,8 @@ func init() {
 func runC09(c *Ctx) {
 	if !importing {
 		importObls(c, "C12", runC12, "X12", func(k string) bool { return containsAny(k, "common/probdist") })
+		// the IAT mode a bridge runs with is the one its operator configured (C18.R3: the override reaches the state)
+		importObls(c, "C18", runC18, "X18", func(k string) bool { return containsAny(k, "serverStateFromArgs#override-persisted") })
 	}
 	p := c.P
 	write := p.Func("transports/obfs4:(*obfs4Conn).Write")
@@ -465,6 +467,58 @@ func c09Seed(c *Ctx, p *Prog, readPackets *ssa.Function) {
 		ob.Violate("%s", bad)
 	} else {
 		ob.HoldNT("2 Reset calls, both under !isServer && len(payload) == 24")
+	}
+
+	// every seed packet a client receives is adopted: besides the role test, nothing the connection remembers
+	// (a flag, a counter, "was it inline with the handshake") decides whether the Reset is reached — how the
+	// network segments the server's response must not matter
+	ob = c.Obl("R3", "transports/obfs4:(*obfs4Conn).readPackets#adopt-always", "no condition on the way to the Reset calls tests connection state other than the role (isServer): a well-formed seed packet is adopted whenever it arrives, whatever read it arrives in")
+	badA, nA := "", 0
+	for _, cs := range p.SitesOf(p.Func("common/probdist:(*WeightedDist).Reset")) {
+		if cs.Caller != readPackets {
+			continue
+		}
+		nA++
+		for _, f := range ff.NC(cs.Instr.Block()) {
+			var walk func(v ssa.Value, d int)
+			seen := map[ssa.Value]bool{}
+			walk = func(v ssa.Value, d int) {
+				if v == nil || d > 8 || seen[v] {
+					return
+				}
+				seen[v] = true
+				if k, _, ok := fieldLoad(v); ok {
+					if k.Type == tO4 && k.Field != "isServer" {
+						if _, basic := v.Type().Underlying().(*types.Basic); basic {
+							badA = fmt.Sprintf("the Reset at %s is reached only under a test of conn.%s", p.InstrPos(cs.Instr), k.Field)
+						}
+					}
+					return
+				}
+				switch x := v.(type) {
+				case *ssa.BinOp:
+					walk(x.X, d+1)
+					walk(x.Y, d+1)
+				case *ssa.UnOp:
+					walk(x.X, d+1)
+				case *ssa.Phi:
+					for _, e := range x.Edges {
+						walk(e, d+1)
+					}
+				case *ssa.Convert:
+					walk(x.X, d+1)
+				}
+			}
+			walk(f.Cond, 0)
+		}
+	}
+	switch {
+	case nA == 0:
+		ob.Undecide("no Reset call in readPackets")
+	case badA != "":
+		ob.Violate("%s", badA)
+	default:
+		ob.HoldNT("%d Reset sites; their path conditions test no remembered connection state", nA)
 	}
 
 	ob = c.Obl("R3", "transports/obfs4:(*obfs4Conn).readPackets#adopt-terms", "lenDist is reset with SeedFromBytes(payload) of the PRNG-seed packet and iatDist (when present) with SeedFromBytes(SHA-256(seed bytes)); a failed derivation resets nothing further")
